@@ -120,3 +120,90 @@ class SWWorld(object):
       self.switch.rx_packet(pkt, port, packet_data=raw)
     else:
       self.switch.rx_packet(pkt, port)
+
+
+class End(object):
+  """the scripted controller's end of one switch's control connection"""
+
+  def __init__(self, sock):
+    self.sock = sock
+    self.rxbuf = b""
+    self.rx = []
+    self.rx_raw = b""
+    self.bad = False
+
+  def send(self, data):
+    self.sock.send(data)
+
+  def pump(self):
+    got = self.sock.take()
+    if got:
+      self.rx_raw += got
+      self.rxbuf += got
+      frames, rest, bad = W.split_stream(self.rxbuf)
+      self.rxbuf = rest
+      self.bad = self.bad or bad
+      for f in frames:
+        d = W.decode(f)
+        d["raw"] = f
+        self.rx.append(d)
+
+  def take(self):
+    self.pump()
+    out = self.rx
+    self.rx = []
+    return out
+
+  @property
+  def eof(self):
+    return self.sock.rx_eof or self.sock.rx_reset
+
+
+class MultiSW(object):
+  """N real switches sharing one RecocoIOLoop, each with its own scripted
+  controller end (C10's switch side)."""
+
+  def __init__(self, sim, n, cfg=None):
+    self.sim = sim
+    self.n = n
+    self.cfg = cfg or {}
+    self.ends = []
+    self.switches = []
+    self.workers = []
+
+  def boot(self):
+    from pox.core import core
+    from pox.datapaths.switch import SoftwareSwitch, ExpireMixin
+    from pox.datapaths import OpenFlowWorker
+    import pox.lib.ioworker as IOW
+    sim = self.sim
+    self.sched = S.new_scheduler(sim)
+    core.running = True
+    core.starting_up = False
+    lst = S.SimSocket(sim, "ctl-listener")
+    lst.bind(("0.0.0.0", 6633))
+    lst.listen(16)
+    accepted = []
+
+    def on_accept(l, srv):
+      srv.recv_all = True
+      accepted.append(srv)
+    lst.on_accept = on_accept
+    self.listener = lst
+
+    class ExpiringSwitch(ExpireMixin, SoftwareSwitch):
+      pass
+
+    self.loop = IOW.RecocoIOLoop()
+    self.loop.start()
+    for i in range(self.n):
+      sw = ExpiringSwitch(dpid=i + 1, ports=2, max_buffers=2,
+                          expire_period=self.cfg.get("expire_period", 2))
+      self.switches.append(sw)
+      w = OpenFlowWorker.begin(loop=self.loop, addr="127.0.0.1", port=6633,
+                               switch=sw, max_retry_delay=16)
+      self.workers.append(w)
+      if len(accepted) != i + 1:
+        raise S.SimAbort("harness", "switch %d did not connect" % i)
+      self.ends.append(End(accepted[i]))
+    sim.settle()
